@@ -31,3 +31,384 @@ Qed.
 
 Lemma rle_roundtrip_l l : unrle (rle l) = l.
 Proof. destruct l as [|v l]; [reflexivity|]. cbn [rle]. rewrite unrle_rle_go. reflexivity. Qed.
+
+(** * prefix sums *)
+Definition cblen (l : list N) (n : N) : N := nth (N.to_nat n) l 0.
+
+Lemma lenN_nil {A} : lenN (@nil A) = 0.
+Proof. reflexivity. Qed.
+Lemma lenN_cons {A} (x : A) l : lenN (x :: l) = lenN l + 1.
+Proof. unfold lenN. cbn [length]. lia. Qed.
+Lemma lenN_app {A} (a b : list A) : lenN (a ++ b) = lenN a + lenN b.
+Proof. unfold lenN. rewrite app_length. lia. Qed.
+Lemma lenN_repeat {A} (v : A) k : lenN (repeat v k) = N.of_nat k.
+Proof. unfold lenN. rewrite repeat_length. reflexivity. Qed.
+
+Lemma pre_0 l : pre l 0 = 0.
+Proof. destruct l; reflexivity. Qed.
+Lemma pre_nil n : pre [] n = 0.
+Proof. reflexivity. Qed.
+Lemma pre_cons x r n : 0 < n -> pre (x :: r) n = x + pre r (n - 1).
+Proof. intros H. cbn [pre]. destruct (n =? 0) eqn:E; [lia|reflexivity]. Qed.
+
+Lemma pre_firstn l : forall n, pre l n = sumN (firstn (N.to_nat n) l).
+Proof.
+  induction l as [|x l IH]; intros n.
+  - rewrite firstn_nil. reflexivity.
+  - destruct (N.eq_dec n 0) as [->|Hn]; [reflexivity|].
+    rewrite pre_cons by lia. rewrite IH.
+    replace (N.to_nat n) with (S (N.to_nat (n - 1))) by lia. reflexivity.
+Qed.
+
+Lemma pre_succ l : forall n, pre l (n + 1) = pre l n + cblen l n.
+Proof.
+  unfold cblen. induction l as [|x l IH]; intros n.
+  - cbn [pre]. destruct (N.to_nat n); reflexivity.
+  - destruct (N.eq_dec n 0) as [->|Hn].
+    + rewrite pre_cons by lia. replace (0 + 1 - 1) with 0 by lia. rewrite !pre_0.
+      change (N.to_nat 0) with O. cbn [nth]. lia.
+    + rewrite !pre_cons by lia. replace (n + 1 - 1) with (n - 1 + 1) by lia. rewrite IH.
+      replace (N.to_nat n) with (S (N.to_nat (n - 1))) by lia. cbn [nth]. lia.
+Qed.
+
+Lemma pre_mono l a b : a <= b -> pre l a <= pre l b.
+Proof.
+  intros H. replace b with (a + (b - a)) by lia. generalize (b - a). clear H b.
+  intros d. induction d as [|d IH] using N.peano_ind; [rewrite N.add_0_r; lia|].
+  replace (a + N.succ d) with (a + d + 1) by lia. rewrite pre_succ. lia.
+Qed.
+
+Lemma pre_all l : forall n, lenN l <= n -> pre l n = sumN l.
+Proof.
+  induction l as [|x l IH]; intros n H; [reflexivity|].
+  rewrite lenN_cons in H. rewrite pre_cons by lia. cbn [sumN fold_right]. rewrite IH by lia. reflexivity.
+Qed.
+
+Definition Pos (l : list N) : Prop := Forall (fun b => 0 < b) l.
+
+Lemma cblen_pos l n : Pos l -> n < lenN l -> 0 < cblen l n.
+Proof.
+  intros HP Hn. unfold cblen. unfold Pos in HP. rewrite Forall_forall in HP. apply HP.
+  apply nth_In. unfold lenN in Hn. lia.
+Qed.
+
+Lemma pre_strict l a b : Pos l -> a < b -> b <= lenN l -> pre l a < pre l b.
+Proof.
+  intros HP H1 H2. pose proof (pre_mono l (a + 1) b ltac:(lia)) as H.
+  rewrite pre_succ in H. pose proof (cblen_pos l a HP ltac:(lia)). lia.
+Qed.
+
+Lemma pre_le_sum l n : pre l n <= sumN l.
+Proof.
+  destruct (N.le_gt_cases (lenN l) n) as [H|H].
+  - rewrite pre_all by exact H. lia.
+  - rewrite <- (pre_all l (lenN l)) by lia. apply pre_mono. lia.
+Qed.
+
+Lemma pre_repeat_app v l k : forall m,
+  pre (repeat v k ++ l) m =
+  if m <=? N.of_nat k then v * m else v * N.of_nat k + pre l (m - N.of_nat k).
+Proof.
+  induction k as [|k IH]; intros m.
+  - cbn [repeat app]. destruct (m <=? N.of_nat 0) eqn:E.
+    + replace m with 0 by lia. rewrite pre_0. lia.
+    + replace (m - N.of_nat 0) with m by lia. lia.
+  - cbn [repeat app]. destruct (N.eq_dec m 0) as [->|Hm].
+    + rewrite pre_0. destruct (0 <=? N.of_nat (S k)) eqn:E; lia.
+    + rewrite pre_cons by lia. rewrite IH.
+      destruct (m - 1 <=? N.of_nat k) eqn:E1; destruct (m <=? N.of_nat (S k)) eqn:E2; try lia.
+      * replace m with (m - 1 + 1) at 2 by lia. lia.
+      * replace (m - N.of_nat (S k)) with (m - 1 - N.of_nat k) by lia.
+        replace (N.of_nat (S k)) with (N.of_nat k + 1) by lia. lia.
+Qed.
+
+(** * byte_start_end on the run-length encoded form *)
+Lemma bse_go_spec r : forall start total n, total <= n ->
+  bse_go r start total n =
+  if n - total <? lenN (unrle r)
+  then Ok (start + pre (unrle r) (n - total), start + pre (unrle r) (n - total + 1))
+  else Panic 1.
+Proof.
+  induction r as [|[nb cnt] r IH]; intros start total n H.
+  - cbn [bse_go unrle flat_map]. rewrite lenN_nil. destruct (n - total <? 0) eqn:E; [lia|reflexivity].
+  - cbn [bse_go]. cbn [unrle flat_map fst snd]. fold (unrle r).
+    rewrite lenN_app, lenN_repeat, N2Nat.id.
+    destruct (n <? total + cnt) eqn:E1.
+    + unfold csub. destruct (total <=? n) eqn:E2; [|lia]. cbn [bind].
+      destruct (n - total <? cnt + lenN (unrle r)) eqn:E3; [|lia].
+      rewrite !pre_repeat_app, N2Nat.id.
+      destruct (n - total <=? cnt) eqn:E4; [|lia].
+      destruct (n - total + 1 <=? cnt) eqn:E5; [|lia].
+      f_equal. f_equal. lia.
+    + rewrite IH by lia.
+      replace (n - (total + cnt)) with (n - total - cnt) by lia.
+      destruct (n - total - cnt <? lenN (unrle r)) eqn:E3;
+        destruct (n - total <? cnt + lenN (unrle r)) eqn:E4; try lia; [|reflexivity].
+      rewrite !pre_repeat_app, N2Nat.id.
+      destruct (n - total <=? cnt) eqn:E5.
+      * assert (n - total = cnt) as -> by lia. replace (cnt - cnt) with 0 by lia. rewrite pre_0.
+        destruct (cnt + 1 <=? cnt) eqn:E6; [lia|].
+        replace (cnt + 1 - cnt) with (0 + 1) by lia. f_equal. f_equal; lia.
+      * destruct (n - total + 1 <=? cnt) eqn:E6; [lia|].
+        replace (n - total + 1 - cnt) with (n - total - cnt + 1) by lia. f_equal. f_equal; lia.
+Qed.
+
+Lemma bse_new lens n :
+  bse (cs_new lens) n =
+  if n <? lenN lens then Ok (pre lens n, pre lens (n + 1)) else Panic 1.
+Proof.
+  unfold bse, cs_new. cbn [c_rle]. rewrite bse_go_spec by lia. rewrite rle_roundtrip_l.
+  rewrite N.sub_0_r, !N.add_0_l. reflexivity.
+Qed.
+
+Lemma cbl_new lens n : n < lenN lens -> cbl (cs_new lens) n = Ok (cblen lens n).
+Proof.
+  intros H. unfold cbl. rewrite bse_new. destruct (n <? lenN lens) eqn:E; [|lia].
+  cbn [bind fst snd]. unfold csub. rewrite pre_succ.
+  destruct (pre lens n <=? pre lens n + cblen lens n) eqn:E2; [|lia]. f_equal. lia.
+Qed.
+
+(** * char_range_to_byte_range, slices, sub, get on a CharString built by [cs_new] *)
+Lemma cr2br_new lens a b : a < b -> b <= lenN lens ->
+  cr2br (cs_new lens) a b = Ok (pre lens a, pre lens b).
+Proof.
+  intros H1 H2. unfold cr2br. cbn [cs_new c_len].
+  destruct (a <? b) eqn:E1; [|lia]. destruct (b <=? lenN lens) eqn:E2; [|lia]. cbn [andb].
+  rewrite bse_new. destruct (a <? lenN lens) eqn:E3; [|lia]. cbn [bind fst snd].
+  destruct (a <? b - 1) eqn:E4.
+  - rewrite bse_new. destruct (b - 1 <? lenN lens) eqn:E5; [|lia]. cbn [bind fst snd].
+    replace (b - 1 + 1) with b by lia. reflexivity.
+  - replace (a + 1) with b by lia. reflexivity.
+Qed.
+
+Lemma cr2br_assert lens a b : ~ (a < b /\ b <= lenN lens) -> cr2br (cs_new lens) a b = Panic 4.
+Proof.
+  intros H. unfold cr2br. cbn [cs_new c_len].
+  destruct (a <? b) eqn:E1; destruct (b <=? lenN lens) eqn:E2; cbn [andb]; try reflexivity. lia.
+Qed.
+
+Lemma slice_new lens bs be : bs <= be -> be <= sumN lens ->
+  slice (cs_new lens) bs be = Ok (bs, be - bs).
+Proof.
+  intros H1 H2. unfold slice. cbn [cs_new c_blen].
+  destruct (bs <=? be) eqn:E1; [|lia]. destruct (be <=? sumN lens) eqn:E2; [|lia]. reflexivity.
+Qed.
+
+Lemma sub_new lens a b : a <= b ->
+  sub (cs_new lens) a b =
+  if N.min a (lenN lens) =? N.min b (lenN lens) then Ok (0, 0)
+  else Ok (pre lens (N.min a (lenN lens)),
+           pre lens (N.min b (lenN lens)) - pre lens (N.min a (lenN lens))).
+Proof.
+  intros H. unfold sub. cbn [cs_new c_len]. destruct (b <? a) eqn:E0; [lia|].
+  destruct (lenN lens =? 0) eqn:E1; cbn [orb].
+  - destruct (N.min a (lenN lens) =? N.min b (lenN lens)) eqn:E2; [reflexivity|lia].
+  - destruct (N.min a (lenN lens) =? N.min b (lenN lens)) eqn:E2; [reflexivity|].
+    rewrite cr2br_new by lia. cbn [bind fst snd].
+    apply slice_new; [apply pre_mono; lia | apply pre_le_sum].
+Qed.
+
+Lemma sub_assert lens a b : b < a -> sub (cs_new lens) a b = Panic 5.
+Proof. intros H. unfold sub. destruct (b <? a) eqn:E; [reflexivity|lia]. Qed.
+
+Lemma get_new lens n :
+  cs_get (cs_new lens) n =
+  if lenN lens <=? n then Ok None else Ok (Some (pre lens n, cblen lens n)).
+Proof.
+  unfold cs_get. cbn [cs_new c_len]. destruct (lenN lens <=? n) eqn:E; [reflexivity|].
+  rewrite bse_new. destruct (n <? lenN lens) eqn:E2; [|lia]. cbn [bind fst snd].
+  rewrite slice_new; [| apply pre_mono; lia | apply pre_le_sum]. cbn [bind].
+  rewrite pre_succ. do 3 f_equal. lia.
+Qed.
+
+Lemma mkwin_new lens c ws we e : c < e -> e <= lenN lens -> ws < we -> we <= lenN lens ->
+  mkwin (cs_new lens) c ws we e =
+  Ok (mkw c ws we e (pre lens c) (pre lens ws) (pre lens we) (pre lens e)
+          (pre lens c) (pre lens e - pre lens c)).
+Proof.
+  intros H1 H2 H3 H4. unfold mkwin. rewrite !cr2br_new by lia. cbn [bind fst snd].
+  rewrite sub_new by lia. destruct (N.min c (lenN lens) =? N.min e (lenN lens)) eqn:E; [lia|].
+  cbn [bind fst snd]. replace (N.min c (lenN lens)) with c by lia.
+  replace (N.min e (lenN lens)) with e by lia. reflexivity.
+Qed.
+
+(** * count_until *)
+Lemma count_fwd lens maxl a0 : forall k a,
+  a0 <= a -> a + N.of_nat k <= lenN lens -> pre lens a - pre lens a0 <= maxl ->
+  exists c, count_until (cs_new lens) (nrange_k a k) maxl (a - a0) (pre lens a - pre lens a0) = Ok c
+    /\ a - a0 <= c /\ c <= a - a0 + N.of_nat k
+    /\ pre lens (a0 + c) - pre lens a0 <= maxl
+    /\ (c < a - a0 + N.of_nat k -> maxl < pre lens (a0 + c + 1) - pre lens a0).
+Proof.
+  induction k as [|k IH]; intros a H1 H2 H3.
+  - exists (a - a0). cbn [nrange_k count_until]. replace (a0 + (a - a0)) with a by lia.
+    repeat split; lia.
+  - cbn [nrange_k count_until]. rewrite cbl_new by lia. cbn [bind].
+    pose proof (pre_succ lens a) as HS. pose proof (pre_mono lens a0 a H1) as HM.
+    destruct (maxl <? pre lens a - pre lens a0 + cblen lens a) eqn:E.
+    + exists (a - a0). replace (a0 + (a - a0)) with a by lia. repeat split; try lia.
+    + destruct (IH (a + 1)) as (c & Hc & B1 & B2 & B3 & B4); try lia.
+      exists c. replace (a - a0 + 1) with (a + 1 - a0) by lia.
+      replace (pre lens a - pre lens a0 + cblen lens a) with (pre lens (a + 1) - pre lens a0) by lia.
+      repeat split; try assumption; try lia.
+Qed.
+
+Lemma count_fwd_top lens maxl a b : a <= b -> b <= lenN lens ->
+  exists c, count_until (cs_new lens) (nrange a b) maxl 0 0 = Ok c
+    /\ a + c <= b
+    /\ pre lens (a + c) - pre lens a <= maxl
+    /\ (a + c < b -> maxl < pre lens (a + c + 1) - pre lens a).
+Proof.
+  intros H1 H2. unfold nrange.
+  destruct (count_fwd lens maxl a (N.to_nat (b - a)) a) as (c & Hc & B1 & B2 & B3 & B4); try lia.
+  exists c. replace (a - a) with 0 in * by lia. replace (pre lens a - pre lens a) with 0 in Hc by lia.
+  repeat split; try assumption; lia.
+Qed.
+
+Fixpoint ndown (a : N) (k : nat) : list N :=
+  match k with O => [] | S k' => (a - 1) :: ndown (a - 1) k' end.
+
+Lemma ndown_snoc k : forall b, N.of_nat k < b -> ndown b (S k) = ndown b k ++ [b - N.of_nat k - 1].
+Proof.
+  induction k as [|k IH]; intros b H.
+  - cbn. f_equal. lia.
+  - change (ndown b (S (S k))) with ((b - 1) :: ndown (b - 1) (S k)).
+    rewrite IH by lia. cbn [ndown app]. do 3 f_equal. lia.
+Qed.
+
+Lemma rev_nrange_k k : forall a, rev (nrange_k a k) = ndown (a + N.of_nat k) k.
+Proof.
+  induction k as [|k IH]; intros a; [reflexivity|].
+  cbn [nrange_k rev]. rewrite IH.
+  replace (a + N.of_nat (S k)) with (a + 1 + N.of_nat k) by lia.
+  rewrite ndown_snoc by lia. do 2 f_equal. lia.
+Qed.
+
+Lemma count_bwd lens maxl a0 : a0 <= lenN lens -> forall k a,
+  a <= a0 -> N.of_nat k <= a -> pre lens a0 - pre lens a <= maxl ->
+  exists c, count_until (cs_new lens) (ndown a k) maxl (a0 - a) (pre lens a0 - pre lens a) = Ok c
+    /\ a0 - a <= c /\ c <= a0 - a + N.of_nat k
+    /\ pre lens a0 - pre lens (a0 - c) <= maxl.
+Proof.
+  intros H0. induction k as [|k IH]; intros a H1 H2 H3.
+  - exists (a0 - a). cbn [ndown count_until]. replace (a0 - (a0 - a)) with a by lia. repeat split; lia.
+  - cbn [ndown count_until]. rewrite cbl_new by lia. cbn [bind].
+    pose proof (pre_succ lens (a - 1)) as HS. replace (a - 1 + 1) with a in HS by lia.
+    pose proof (pre_mono lens a a0 H1) as HM.
+    destruct (maxl <? pre lens a0 - pre lens a + cblen lens (a - 1)) eqn:E.
+    + exists (a0 - a). replace (a0 - (a0 - a)) with a by lia. repeat split; lia.
+    + destruct (IH (a - 1)) as (c & Hc & B1 & B2 & B3); try lia.
+      exists c. replace (a0 - a + 1) with (a0 - (a - 1)) by lia.
+      replace (pre lens a0 - pre lens a + cblen lens (a - 1)) with (pre lens a0 - pre lens (a - 1)) by lia.
+      repeat split; try assumption; lia.
+Qed.
+
+Lemma count_bwd_top lens maxl a : a <= lenN lens ->
+  exists c, count_until (cs_new lens) (rev (nrange 0 a)) maxl 0 0 = Ok c
+    /\ c <= a /\ pre lens a - pre lens (a - c) <= maxl.
+Proof.
+  intros H. unfold nrange. rewrite rev_nrange_k.
+  replace (0 + N.of_nat (N.to_nat (a - 0))) with a by lia.
+  destruct (count_bwd lens maxl a H (N.to_nat (a - 0)) a) as (c & Hc & B1 & B2 & B3); try lia.
+  exists c. replace (a - a) with 0 in * by lia. replace (pre lens a - pre lens a) with 0 in Hc by lia.
+  repeat split; try assumption; lia.
+Qed.
+
+(** * The loops *)
+(** per-window clauses, [kc] = 0 characters / 1 bytes / 2 full *)
+Definition win_ok (lens : list N) (kc max : N) (w : window) : Prop :=
+  (* ctx_contains: context contains the window, lies in the text; window not empty *)
+  (w_cs w <= w_ws w /\ w_ws w < w_we w /\ w_we w <= w_ce w /\ w_ce w <= lenN lens) /\
+  (* byte_char_agree: each byte boundary is the sum of the cluster lengths before the character boundary *)
+  (w_bcs w = pre lens (w_cs w) /\ w_bws w = pre lens (w_ws w) /\
+   w_bwe w = pre lens (w_we w) /\ w_bce w = pre lens (w_ce w)) /\
+  (* ctx_str: the reported string is the byte range of the context *)
+  (w_soff w = w_bcs w /\ w_slen w = w_bce w - w_bcs w) /\
+  (* ctx_bound *)
+  (kc = 0 -> w_ce w - w_cs w <= max) /\
+  (kc = 1 -> w_bce w - w_bcs w <= max).
+
+Lemma c_len_new lens : c_len (cs_new lens) = lenN lens.
+Proof. reflexivity. Qed.
+
+Lemma char_loop_ok lens max ctx : 2 * ctx < max -> forall fuel ws,
+  lenN lens <= ws + N.of_nat fuel -> ws <= lenN lens ->
+  exists wins, char_loop fuel (cs_new lens) max ctx ws = Ok wins
+    /\ Tile w_ws w_we ws (lenN lens) wins /\ Forall (win_ok lens 0 max) wins.
+Proof.
+  intros Hv. induction fuel as [|f IH]; intros ws Hf Hw.
+  - cbn [char_loop]. rewrite c_len_new. destruct (ws <? lenN lens) eqn:E; [lia|].
+    exists []. repeat split; [cbn [Tile]; lia | constructor].
+  - cbn [char_loop]. rewrite !c_len_new. destruct (ws <? lenN lens) eqn:E.
+    2:{ exists []. repeat split; [cbn [Tile]; lia | constructor]. }
+    unfold csub.
+    destruct (0 <? ws) eqn:E0; cbn [b2n];
+      (match goal with |- context [?a <=? max] => destruct (a <=? max) eqn:E1; [|lia] end);
+      cbn [bind];
+      (rewrite mkwin_new by lia); cbn [bind];
+      (match goal with |- context [char_loop f _ _ _ ?we] =>
+         destruct (IH we) as (rest & Hr & HT & HF); [lia|lia|]; rewrite Hr end);
+      cbn [bind];
+      (eexists; split; [reflexivity|]; split;
+       [ cbn [Tile w_ws w_we]; repeat split; try lia; exact HT
+       | constructor; [|exact HF]; unfold win_ok; cbn [w_cs w_ws w_we w_ce w_bcs w_bws w_bwe w_bce w_soff w_slen];
+         repeat split; try lia; intros; lia ]).
+Qed.
+
+Lemma byte_loop_ok lens max ctx : 2 * ctx < max -> forall fuel ws,
+  lenN lens <= ws + N.of_nat fuel -> ws <= lenN lens ->
+  (exists wins, byte_loop fuel (cs_new lens) max ctx ws = Ok wins
+     /\ Tile w_ws w_we ws (lenN lens) wins /\ Forall (win_ok lens 1 max) wins
+     /\ Forall (fun w => w_bwe w - w_bws w <= max - ctx) wins)
+  \/ (exists p, byte_loop fuel (cs_new lens) max ctx ws
+                = Err 2 [p; cblen lens p; max - (1 + b2n (0 <? p)) * ctx]
+     /\ ws <= p /\ p < lenN lens /\ max - (1 + b2n (0 <? p)) * ctx < cblen lens p).
+Proof.
+  intros Hv. induction fuel as [|f IH]; intros ws Hf Hw.
+  - cbn [byte_loop]. rewrite c_len_new. destruct (ws <? lenN lens) eqn:E; [lia|].
+    left. exists []. repeat split; [cbn [Tile]; lia | constructor | constructor].
+  - cbn [byte_loop]. rewrite !c_len_new. destruct (ws <? lenN lens) eqn:E.
+    2:{ left. exists []. repeat split; [cbn [Tile]; lia | constructor | constructor]. }
+    unfold csub.
+    destruct (0 <? ws) eqn:E0; cbn [b2n];
+      (match goal with |- context [?a <=? max] => destruct (a <=? max) eqn:E1; [|lia] end);
+      cbn [bind];
+      (match goal with |- context [count_until _ (nrange ws _) ?wl 0 0] =>
+         destruct (count_fwd_top lens wl ws (lenN lens)) as (cnt & Hc & C1 & C2 & C3); [lia|lia|] end);
+      rewrite Hc; cbn [bind];
+      (destruct (ws + cnt <=? ws) eqn:E2;
+       [ (* no progress: the error *)
+         rewrite cbl_new by lia; cbn [bind]; right; exists ws; rewrite E0; cbn [b2n];
+         assert (cnt = 0) as -> by lia;
+         pose proof (pre_succ lens ws) as HS; replace (ws + 0) with ws in * by lia;
+         split; [reflexivity|]; repeat split; lia
+       | ]);
+      (destruct (count_bwd_top lens ctx ws) as (cb & Hb & B1 & B2); [lia|]);
+      rewrite Hb; cbn [bind];
+      (destruct (count_fwd_top lens ctx (ws + cnt) (lenN lens)) as (cf & Hcf & F1 & F2 & _); [lia|lia|]);
+      rewrite Hcf; cbn [bind];
+      (rewrite mkwin_new by lia); cbn [bind];
+      pose proof (pre_mono lens (ws - cb) ws ltac:(lia)) as M1;
+      assert (M0 : 0 < ws \/ pre lens (ws - cb) = pre lens ws)
+        by (destruct (N.eq_dec ws 0) as [Z|Z]; [right; f_equal; lia | left; lia]);
+      pose proof (pre_mono lens ws (ws + cnt) ltac:(lia)) as M2;
+      pose proof (pre_mono lens (ws + cnt) (ws + cnt + cf) ltac:(lia)) as M3;
+      (destruct (IH (ws + cnt)) as [(rest & Hr & HT & HF & HG)|(p & Hr & P1 & P2 & P3)]; [lia|lia| |]);
+      rewrite Hr; cbn [bind];
+      [ left; eexists; split; [reflexivity|]; split;
+        [ cbn [Tile w_ws w_we]; repeat split; try lia; exact HT
+        | split;
+          [ constructor; [|exact HF]; unfold win_ok;
+            cbn [w_cs w_ws w_we w_ce w_bcs w_bws w_bwe w_bce w_soff w_slen];
+            repeat split; try lia; intros; lia
+          | constructor; [|exact HG]; cbn [w_bws w_bwe]; lia ] ]
+      | right; exists p; split; [reflexivity|]; repeat split; lia
+      | left; eexists; split; [reflexivity|]; split;
+        [ cbn [Tile w_ws w_we]; repeat split; try lia; exact HT
+        | split;
+          [ constructor; [|exact HF]; unfold win_ok;
+            cbn [w_cs w_ws w_we w_ce w_bcs w_bws w_bwe w_bce w_soff w_slen];
+            repeat split; try lia; intros; lia
+          | constructor; [|exact HG]; cbn [w_bws w_bwe]; lia ] ]
+      | right; exists p; split; [reflexivity|]; repeat split; lia ].
+Qed.
